@@ -16,6 +16,7 @@ pub fn run(entry: &str, v: &Value) -> Option<Result<String, String>> {
         "svs_producer_panic" => svs_producer_panic(),
         "fleet_wide_broadcast" => fleet_wide_broadcast(v),
         "fleet_health_probe_malformed" => fleet_health_probe_malformed(),
+        "ws_default_limits" => rt2(ws_default_limits()),
         "peer_broadcast_payloads" => peer_broadcast_payloads(),
         "registry_message_bodies" => registry_message_bodies(),
         "client_emission_parity" => client_emission_parity(),
@@ -914,6 +915,8 @@ mod ws_oversized_notify {
 
         let reported = Arc::new(AtomicUsize::new(0));
         let reported_h = Arc::clone(&reported);
+        let reported_second = Arc::new(AtomicUsize::new(0));
+        let reported_second_h = Arc::clone(&reported_second);
         let peers = PeerRegistry::new();
         let limits = WebSocketLimits::default().with_assumed_peer_frame_limit(Some(LIMIT));
         let shared = WebSocketServer::new(router)
@@ -923,6 +926,12 @@ mod ws_oversized_notify {
                 if let ConnectionError::OutboundTooLarge { size, limit, .. } = err {
                     assert!(size > limit);
                     reported_h.fetch_add(1, Ordering::SeqCst);
+                }
+            })
+            // a second error callback: every registered callback hears of every drop
+            .on_error(move |err| {
+                if let ConnectionError::OutboundTooLarge { .. } = err {
+                    reported_second_h.fetch_add(1, Ordering::SeqCst);
                 }
             })
             .into_shared();
@@ -969,6 +978,7 @@ mod ws_oversized_notify {
         assert_eq!(small.query_str().unwrap(), "/bcast");
         assert_eq!(small.body, b"small");
         assert_eq!(reported.load(Ordering::SeqCst), 4);
+        assert_eq!(reported_second.load(Ordering::SeqCst), 4, "the second registered error callback was not told of every dropped notification");
 
         // And an ordinary exchange still works.
         raw.send(WsMessage::Binary(request(99, 100))).await.unwrap();
@@ -1390,4 +1400,59 @@ fn fleet_health_probe_malformed() -> Result<String, String> {
         out.push(format!("{which}: recovered on a new connection ({} connections)", conns.load(Ordering::SeqCst)));
     }
     Ok(out.join("; "))
+}
+
+// ---------------------------------------------------------------------------------------------
+// C17, configuration: an endpoint built without explicit limits assumes the default peer frame
+// limit (what an unconfigured peer accepts), so the outbound guard is on by default; explicit
+// limits are what the endpoint then reports.
+async fn ws_default_limits() -> Result<String, String> {
+    let d = repe::WebSocketLimits::default();
+    if d.assumed_peer_frame_limit != Some(repe::DEFAULT_MAX_FRAME_SIZE) || repe::DEFAULT_MAX_FRAME_SIZE != 16 << 20 {
+        return Err(format!("WebSocketLimits::default() assumes a peer frame limit of {:?}; an unconfigured peer accepts 16 MiB", d.assumed_peer_frame_limit));
+    }
+    if repe::WebSocketLimits::unlimited().assumed_peer_frame_limit.is_some() {
+        return Err("WebSocketLimits::unlimited() still carries an assumed peer limit".into());
+    }
+    let shared = repe::WebSocketServer::new(repe::Router::new().with_json("/ping", |_v: Value| Ok(json!("pong")))).into_shared();
+    if shared.limits() != d {
+        return Err(format!("a WebSocketServer built without with_limits() reports {:?}; the outbound guard must be on by default ({d:?})", shared.limits()));
+    }
+    let custom = repe::WebSocketLimits::default().with_assumed_peer_frame_limit(Some(4096));
+    let s2 = repe::WebSocketServer::new(repe::Router::new()).with_limits(custom).into_shared();
+    if s2.limits() != custom {
+        return Err(format!("with_limits({custom:?}) is reported as {:?}", s2.limits()));
+    }
+    let listener = tokio::net::TcpListener::bind("127.0.0.1:0").await.map_err(|e| e.to_string())?;
+    let addr = listener.local_addr().unwrap();
+    let srv = tokio::spawn(async move {
+        loop {
+            let Ok((stream, _)) = listener.accept().await else { break };
+            let shared = shared.clone();
+            tokio::spawn(async move {
+                if let Ok(ws) = repe::WebSocketServer::accept(stream, "/repe").await {
+                    let _ = shared.serve_connection(ws).await;
+                }
+            });
+        }
+    });
+    let url = format!("ws://{addr}/repe");
+    let c = repe::WebSocketClient::connect(&url).await.map_err(|e| e.to_string())?;
+    if c.limits() != d {
+        return Err(format!("a WebSocketClient from plain connect() reports {:?}; the outbound guard must be on by default ({d:?})", c.limits()));
+    }
+    let c2 = repe::WebSocketClient::connect_with_limits(&url, custom).await.map_err(|e| e.to_string())?;
+    if c2.limits() != custom {
+        return Err(format!("connect_with_limits({custom:?}) is reported as {:?}", c2.limits()));
+    }
+    // and the guard acts on it: 4097 framed bytes fail locally, the connection stays usable
+    let path = "/ping";
+    let body = vec![b'x'; 4097 - 48 - path.len()];
+    match c2.notify_with_formats(path, 1, Some(&body), 0).await {
+        Err(repe::RepeError::MessageTooLarge { size: 4097, limit: 4096 }) => {}
+        other => return Err(format!("a 4097-byte notify under an assumed peer limit of 4096 gave {other:?}")),
+    }
+    c2.call_json(path, &json!({})).await.map_err(|e| format!("the connection was not usable after a local refusal: {e}"))?;
+    srv.abort();
+    Ok("default-built server and client assume the 16 MiB default; explicit limits are kept and enforced".into())
 }
